@@ -185,7 +185,9 @@ def gen_method(rng, spec: dict, n_lines: int) -> str:
             name = rng.choice(spec["tags"])[0] if rng.random() < 0.9 else rng.choice(FAR)
             add(f"Simulate off: {name}")
         elif r < 0.70:
-            add(f"Base: {rng.choice(BASE_UNITS + ['s', 's', 'min', 'h'] + (['xx'] if rng.random() < 0.2 else []))}")
+            # units from the static list, the time units, and near misses that start with / contain / end in a unit
+            near = ["sec", "mins", "minutes", "1 min", "each", "Lh", "hs", "s min", "ms", "xx"]
+            add(f"Base: {rng.choice(BASE_UNITS + ['s', 's', 'min', 'h'] + ([rng.choice(near)] * 3 if rng.random() < 0.5 else []))}")
         elif r < 0.78:
             add(rng.choice(["Wait: 0.1 s", "Wait: 0.2s", "Wait: 0.001 h", "Wait: .1 s", "Wait: 0.1 s",
                             "Wait: 1" if rng.random() < 0.4 else "Wait: 0.3 s"]))
